@@ -540,3 +540,123 @@ func init() {
 		fmt.Fprintln(os.Stderr, len(fields), "fields,", len(accs), "accesses,", bad, "foreign accesses to plain fields")
 	}
 }
+
+// packageStateCensus: every package-level variable of the engine's packages (root and pkg/**, non-test, without the
+// verif hooks) that can hold state: maps, slices, channels, pointers, sync types, struct values, function values, and
+// whatever a call other than errors.New / fmt.Errorf / reflect.TypeOf returns. Basic literals and error values are not
+// listed. (variable, kind)
+type packageVar struct{ Var, Kind string }
+
+func packageStateCensus(c *factsCtx) (out []packageVar) {
+	var dirs []string
+	filepath.Walk(c.repo, func(p string, info os.FileInfo, err error) error {
+		if err == nil && info.IsDir() {
+			rel, _ := filepath.Rel(c.repo, p)
+			if rel == "." || strings.HasPrefix(rel, "pkg") {
+				dirs = append(dirs, rel)
+			}
+			if strings.HasPrefix(rel, ".git") || rel == "schema" || rel == "examples" || rel == "testdata" || rel == "model" {
+				return filepath.SkipDir
+			}
+		}
+		return nil
+	})
+	sort.Strings(dirs)
+	kindOfType := func(t ast.Expr) string {
+		switch x := t.(type) {
+		case *ast.MapType:
+			return "map"
+		case *ast.ArrayType:
+			return "slice"
+		case *ast.ChanType:
+			return "chan"
+		case *ast.StarExpr:
+			return "pointer"
+		case *ast.StructType:
+			return "struct"
+		case *ast.FuncType:
+			return "func"
+		case *ast.SelectorExpr:
+			if id, ok := x.X.(*ast.Ident); ok && (id.Name == "sync" || id.Name == "atomic") {
+				return "sync"
+			}
+		}
+		return ""
+	}
+	for _, d := range dirs {
+		files, _ := filepath.Glob(filepath.Join(c.repo, d, "*.go"))
+		sort.Strings(files)
+		for _, p := range files {
+			if strings.HasSuffix(p, "_test.go") || verifOnly(p) {
+				continue
+			}
+			rel, _ := filepath.Rel(c.repo, p)
+			f := c.parse(rel)
+			if f == nil {
+				continue
+			}
+			for _, dcl := range f.Decls {
+				gd, ok := dcl.(*ast.GenDecl)
+				if !ok || gd.Tok != token.VAR {
+					continue
+				}
+				for _, sp := range gd.Specs {
+					vs := sp.(*ast.ValueSpec)
+					for i, n := range vs.Names {
+						if n.Name == "_" {
+							continue
+						}
+						kind := ""
+						if vs.Type != nil {
+							kind = kindOfType(vs.Type)
+						}
+						if kind == "" && i < len(vs.Values) {
+							switch x := vs.Values[i].(type) {
+							case *ast.CompositeLit:
+								kind = kindOfType(x.Type)
+								if kind == "" {
+									kind = "value"
+								}
+							case *ast.UnaryExpr:
+								if x.Op == token.AND {
+									kind = "pointer"
+								}
+							case *ast.FuncLit:
+								kind = "func"
+							case *ast.CallExpr:
+								fn := nodeText(c.fset, x.Fun)
+								switch {
+								case fn == "make" && len(x.Args) > 0:
+									kind = kindOfType(x.Args[0])
+								case fn == "errors.New" || fn == "fmt.Errorf" || strings.HasPrefix(fn, "reflect.TypeOf"):
+								default:
+									kind = "call"
+								}
+							}
+						}
+						if kind != "" {
+							out = append(out, packageVar{d + "." + n.Name, kind})
+						}
+					}
+				}
+			}
+		}
+	}
+	sort.Slice(out, func(i, j int) bool { return out[i].Var < out[j].Var })
+	return
+}
+
+func init() {
+	factGens = append(factGens, func(c *factsCtx) {
+		pv := packageStateCensus(c)
+		c.out.WriteString("(* package-level variables of the engine's packages that can hold state: (variable, kind) *)\nDefinition package_level_state : list (string * string) := [\n")
+		for i, a := range pv {
+			sep := ";"
+			if i+1 == len(pv) {
+				sep = ""
+			}
+			fmt.Fprintf(&c.out, "  (%s, %s)%s\n", coqStr(a.Var), coqStr(a.Kind), sep)
+		}
+		c.out.WriteString("].\n\n")
+	})
+}
